@@ -48,6 +48,7 @@ type DecCase struct {
 	Inflat int    `json:"inflated_size,omitempty"`
 	Trunc  int    `json:"truncate_at,omitempty"`
 	Chunk  int    `json:"chunk,omitempty"`
+	Pre    int    `json:"empty_packets_before,omitempty"` // exact-body: this many well-formed empty packets first
 }
 
 func gzipOf(n int, b byte) []byte {
@@ -91,6 +92,14 @@ func (c DecCase) stream() []byte {
 			n = 1 << 20
 		}
 		return append(out, make([]byte, n)...)
+	case "exact-body":
+		// a well-formed packet: the header declares Len and exactly Len body bytes follow, after Pre
+		// well-formed empty packets on the same connection
+		var out []byte
+		for i := 0; i < c.Pre; i++ {
+			out = append(out, frame([]byte{0x01, 0x20, 0x22, 0x24}[i%4], nil)...)
+		}
+		return append(out, frame(c.Type, make([]byte, c.Len))...)
 	case "gzip-bomb":
 		s := frame(c.Type|byte(packet.Compressed), gzipOf(c.Inflat, 'A'))
 		if c.Trunc > 0 && c.Trunc < len(s) {
@@ -120,7 +129,9 @@ type decResult struct {
 	pastCheck bool
 }
 
-func decodeOnce(data []byte, chunk int) (r decResult) {
+func decodeOnce(data []byte, chunk int) (r decResult) { return decodeN(data, chunk, 64) }
+
+func decodeN(data []byte, chunk int, limit int) (r decResult) {
 	cr := &vkit.ChunkReader{Data: data, Fixed: chunk}
 	sp := stream.NewStreamProcessor(cr, io.Discard, context.Background())
 	defer sp.Close()
@@ -133,12 +144,16 @@ func decodeOnce(data []byte, chunk int) (r decResult) {
 			}
 		}()
 		var ms0, ms1 runtime.MemStats
-		for i := 0; i < 64; i++ {
-			runtime.ReadMemStats(&ms0)
+		for i := 0; i < limit; i++ {
+			if limit <= 64 {
+				runtime.ReadMemStats(&ms0)
+			}
 			pkt, _, err := sp.ReadPacket()
-			runtime.ReadMemStats(&ms1)
-			if d := ms1.TotalAlloc - ms0.TotalAlloc; d > r.allocMax {
-				r.allocMax = d
+			if limit <= 64 {
+				runtime.ReadMemStats(&ms1)
+				if d := ms1.TotalAlloc - ms0.TotalAlloc; d > r.allocMax {
+					r.allocMax = d
+				}
 			}
 			if err != nil {
 				r.err = err
@@ -165,9 +180,13 @@ func decodeOnce(data []byte, chunk int) (r decResult) {
 func decodeOracle(t vkit.TB, c DecCase) {
 	data := c.stream()
 	vkit.Journal("decoder", c)
-	r := decodeOnce(data, c.Chunk)
+	limit := 64
+	if c.Pre+2 > limit {
+		limit = c.Pre + 2
+	}
+	r := decodeN(data, c.Chunk, limit)
 	if r.hung {
-		r = decodeOnce(data, c.Chunk) // re-run once before reporting
+		r = decodeN(data, c.Chunk, limit) // re-run once before reporting
 	}
 	class := "dec:" + c.Kind
 	flagged := len(data) > 0 && data[0]&byte(packet.Compressed) != 0
@@ -194,6 +213,9 @@ func decodeOracle(t vkit.TB, c DecCase) {
 		vkit.Violation(t, k, fmt.Sprintf("%d bytes allocated while decoding one packet (bound %d)", r.allocMax, allocBoundPerPacket), c)
 		return
 	}
+	if c.Kind == "exact-body" && c.Len <= maxBody && c.Type&byte(packet.Compressed|packet.Encrypted) == 0 && c.Type&0x3F != 0x10 && c.Type&0x3F != 0x11 && c.Type&0x3F != 0x03 && r.packets != c.Pre+1 {
+		vkit.Class("completeness-miss:well-formed-packet-not-decoded")
+	}
 	out := "error"
 	if r.err == nil {
 		out = "64-packets"
@@ -207,6 +229,24 @@ func decodeOracle(t vkit.TB, c DecCase) {
 }
 
 var hostileLens = []uint32{0, 1, 4, 5, maxBody - 1, maxBody, maxBody + 1, 1 << 31, 0xFFFFFFFF, 0x7FFFFFFF, 0x01000001}
+
+// genBoundaryLen: a body length near a power of two (buffer-pool size classes, slab sizes), or any
+// length up to 70000.
+func genBoundaryLen(t *rapid.T) uint32 {
+	if rapid.IntRange(0, 3).Draw(t, "anyLen") == 0 {
+		return uint32(rapid.IntRange(0, 70000).Draw(t, "len"))
+	}
+	k := rapid.IntRange(0, 22).Draw(t, "log2")
+	d := rapid.IntRange(-2, 2).Draw(t, "delta")
+	l := (1 << uint(k)) + d
+	if l < 0 {
+		l = 0
+	}
+	if l > maxBody {
+		l = maxBody
+	}
+	return uint32(l)
+}
 
 func genValidStream(t *rapid.T) []byte {
 	var w bytes.Buffer
@@ -230,7 +270,15 @@ func TestDecoder(t *testing.T) {
 	bigBudget := vkit.Pick(3, 12) // per shard: inflations > 16 MiB are expensive
 	vkit.Check(t, 6000, 150000, func(t *rapid.T) {
 		c := DecCase{Chunk: rapid.SampledFrom([]int{0, 0, 1, 7, 4096}).Draw(t, "chunk")}
-		switch rapid.IntRange(0, 9).Draw(t, "source") {
+		switch rapid.IntRange(0, 10).Draw(t, "source") {
+		case 10:
+			c.Kind = "exact-body"
+			c.Type = rapid.SampledFrom([]byte{0x01, 0x02, 0x20, 0x21, 0x22, 0x23, 0x24, 0x3F, 0x10}).Draw(t, "type")
+			c.Len = genBoundaryLen(t)
+			c.Pre = rapid.SampledFrom([]int{0, 0, 0, 1, 2, 3, 17, 70}).Draw(t, "pre")
+			if c.Len > 1<<20 && c.Chunk != 0 && c.Chunk < 4096 {
+				c.Chunk = 4096
+			}
 		case 0, 1:
 			c.Kind = "explicit"
 			c.Hex = fmt.Sprintf("%x", rapid.SliceOfN(rapid.Byte(), 0, 64).Draw(t, "bytes"))
@@ -301,6 +349,40 @@ func TestBombs(t *testing.T) {
 			decodeOracle(t, DecCase{Kind: "gzip-bomb", Type: ty, Inflat: n})
 		}
 	}
+}
+
+// TestLengthBoundaries: a well-formed packet of every body length 2^k-1, 2^k, 2^k+1 up to the limit,
+// as the first packet of a connection and after a few / very many well-formed empty packets.
+func TestLengthBoundaries(t *testing.T) {
+	i := 0
+	for k := 0; (1<<uint(k))-1 <= maxBody; k++ {
+		for d := -1; d <= 1; d++ {
+			l := (1 << uint(k)) + d
+			if l < 0 || l > maxBody {
+				continue
+			}
+			for _, pre := range []int{0, 3, 40} {
+				for _, ty := range []byte{0x20, 0x22, 0x01} {
+					i++
+					if !vkit.Mine(i) {
+						continue
+					}
+					decodeOracle(t, DecCase{Kind: "exact-body", Type: ty, Len: uint32(l), Pre: pre})
+				}
+			}
+		}
+	}
+	// long runs of empty packets on one connection, then a boundary length
+	for _, pre := range []int{1000, 4200, 9000} {
+		for _, l := range []uint32{0, 5, 4000, 4090, 4096} {
+			i++
+			if !vkit.Mine(i) {
+				continue
+			}
+			decodeOracle(t, DecCase{Kind: "exact-body", Type: 0x22, Len: l, Pre: pre})
+		}
+	}
+	vkit.Exhaustive("body length 2^k-1,2^k,2^k+1 x packets before", true)
 }
 
 // ---------------------------------------------------------------------------
